@@ -521,6 +521,15 @@ impl_current_for!(EVENT_LOOP, EventLoop<'e>);
 
 impl_display_by_debug!(EventLoop<'e>);
 
+#[cfg(all(target_os = "linux", feature = "io_uring"))]
+impl EventLoop<'_> {
+    /// Ask the kernel to cancel the operation submitted with `token`; its completion still
+    /// arrives (with `-ECANCELED`, or with the result if it was faster than the request).
+    pub(super) fn cancel_io_uring(&self, token: u64) -> std::io::Result<()> {
+        self.operator.async_cancel(token)
+    }
+}
+
 macro_rules! impl_io_uring {
     ( $syscall: ident($($arg: ident : $arg_type: ty),*) -> $result: ty ) => {
         #[cfg(all(target_os = "linux", feature = "io_uring"))]
